@@ -1,7 +1,8 @@
 (* C08 - Go values cross the host/script boundary faithfully or are rejected cleanly.
    Property theorems only; each is closed by [exact] of a lemma proved in proofs/ConvProofs.v.
 
-   The model (model/Conv.v) follows object/typeconv.go and object/proxy.go as they are: the full statement
+   The model (model/Conv.v) follows object/typeconv.go and object/proxy.go as they are (after the repairs 97c63d0,
+   4f36687, b5872d0, c6698f8: untyped nil global, array length, nil elements, struct-valued field): the full statement
    ("every value of every supported type converts faithfully or is rejected with an error; conversion never
    panics") is FALSE of it, and of the code.  The C08_refuted_* theorems give one witness per defect class (each
    is replayed on the implementation by the check); the other theorems prove the property for the guarded class:
@@ -34,12 +35,14 @@ Qed.
 
 (* ------------------------------------------------------------------ guarded: round trip *)
 
-(* Go -> script -> Go.  For every unnamed type and every well-typed value without a nil pointer inside, the
-   object the script received converts back (To) to a Go value of exactly the original type that equals the
-   original up to nil-versus-empty slices and maps.  Induction on the type: any depth. *)
+(* Go -> script -> Go.  For every unnamed type and every well-typed value - nil pointers, also inside slices, arrays
+   and maps, included; only a pointer to a nil pointer is excluded - the object the script received converts back
+   (To) to a Go value of exactly the original type that equals the original up to nil-versus-empty slices and maps
+   (a nil pointer converts to "no value", for which the caller stores the zero value: tv_of).  Induction on the
+   type: any depth. *)
 Theorem C08_roundtrip : forall t, plain_type t = true -> forall h fuel d v o,
   wt t v = true -> solid t v = true -> from_go d t v = Ok o -> (tdepth t < fuel)%nat ->
-  to_go h fuel false t o = Ok (Some (t, norm t v)).
+  to_go h fuel false t o = Ok (tv_of t v).
 Proof. exact roundtrip. Qed.
 
 (* ... and the value that came back reads, in the script, exactly as the original did. *)
@@ -49,17 +52,23 @@ Proof. exact from_norm. Qed.
 
 (* ------------------------------------------------------------------ a field written from a script reads back *)
 
-(* Whenever `p.name = x` succeeds on a proxy that wraps Go memory, the Go-side field holds exactly the converted
-   value (as a Go program sees it) and reading `p.name` from the script converts that very value. *)
+(* Whenever `p.name = x` succeeds on a proxy that wraps Go memory, the Go-side field holds exactly the value
+   SetAttr derives from the converter's result (the zero value for nil, the pointed-to struct for a struct-valued
+   field, the converted value otherwise) and reading `p.name` from the script converts that very value. *)
 Theorem C08_setfield_reads_back : forall fuel h pt c p name x h',
   set_attr fuel h (RProxy pt c p) name x = Ok h' ->
-  exists i ft r,
+  exists i ft r g,
     field_index (struct_fields (under pt)) name 0 = Some (i, ft) /\
     to_go h fuel true (field_conv_type ft) x = Ok r /\
-    (forall dt v, r = Some (dt, v) -> assignable ft dt = true) /\
-    heap_get h' c (p ++ [i]) = Some (stored_as ft r) /\
-    get_attr h' (RProxy pt c p) name = from_field ft (stored_as ft r) c (p ++ [i]).
+    stored_val h ft r = Ok g /\
+    heap_get h' c (p ++ [i]) = Some g /\
+    get_attr h' (RProxy pt c p) name = from_field ft g c (p ++ [i]).
 Proof. exact setfield_reads_back. Qed.
+
+(* A script list that does not fit a Go array is rejected with an error, for every element type and every list. *)
+Theorem C08_array_too_long_rejected : forall h f d n et l,
+  (n < length l)%nat -> to_go h (S f) d (TArray n et) (RList l) = Err.
+Proof. exact to_go_array_too_long. Qed.
 
 (* ------------------------------------------------------------------ methods receive the arguments passed *)
 
@@ -99,33 +108,36 @@ Theorem C08_refuted_named :
   /\ from_global (Some (TIface, GDyn t_myint (GInt 1))) = Panic.
 Proof. conj_vm. Qed.
 
-(* The untyped nil: reflect.TypeOf(nil) has no Kind. *)
-Theorem C08_refuted_untyped_nil : from_global None = Panic.
-Proof. reflexivity. Qed.
-
 (* Unsigned 64-bit values above MaxInt64 are not represented by an equal value. *)
 Theorem C08_refuted_uint64 :
   wt (TInt KUint64) (GInt (2 ^ 64 - 1)) = true /\ from_go false (TInt KUint64) (GInt (2 ^ 64 - 1)) = Ok (RInt (-1)).
 Proof. conj_vm. Qed.
 
-(* Script values that Go cannot hold are not always rejected with an error: some panic ... *)
+(* Script values that Go cannot hold are still not always rejected with an error: *)
 Theorem C08_refuted_to_panics :
-  (* a list longer than the array *)
-  set_attr 10 [GStruct [GArray [GInt 1; GInt 2]]] (cell_proxy (TArray 2 (TInt KInt))) f0 (RList [RInt 4; RInt 5; RInt 6]) = Panic
-  (* nil inside a slice of pointers (as read from Go: []*int{&one, nil} reads as [1, nil]) *)
-  /\ from_go true (TSlice (TPtr (TInt KInt))) (GSlice [GBox (GInt 1); GNil]) = Ok (RList [RInt 1; RNil])
-  /\ set_attr 10 [GStruct [GNil]] (cell_proxy (TSlice (TPtr (TInt KInt)))) f0 (RList [RInt 1; RNil]) = Panic
-  (* a struct-valued field written from a map *)
-  /\ set_attr 10 [GStruct [GStruct [GInt 1]]] (cell_proxy (TStruct 7 [(f0, TInt KInt)])) f0 (RMap [(f0, RInt 4)]) = Panic
   (* a pointer to a declared slice type *)
-  /\ call_args 10 [] [TPtr (TNamed 10 (TSlice (TInt KInt)))] [RList [RInt 1]] = Panic.
+  call_args 10 [] [TPtr (TNamed 10 (TSlice (TInt KInt)))] [RList [RInt 1]] = Panic
+  (* a struct-valued field set INSIDE a map literal that builds the enclosing struct (StructConverter.To) *)
+  /\ set_attr 10 [GStruct [GBox (GStruct [GStruct [GInt 1]])]]
+        (cell_proxy (TPtr (TStruct 8 [(f0, TStruct 7 [(f0, TInt KInt)])]))) f0 (RMap [(f0, RMap [(f0, RInt 4)])]) = Panic.
 Proof. conj_vm. Qed.
 
-(* ... and a nil map value is silently dropped. *)
-Theorem C08_refuted_nil_map_entry :
-  exists h', set_attr 10 [GStruct [GNil]] (cell_proxy (TMap TIface)) f0 (RMap [([97]%N, RNil)]) = Ok h'
-             /\ heap_get h' 0 [0%nat] = Some (GMap []).
-Proof. eexists. conj_vm. Qed.
+(* The former witnesses of repaired defects now convert, or are rejected with an error: *)
+Theorem C08_repaired_conversions :
+  (* WithGlobal("x", nil) *)
+  from_global None = Ok RNil
+  (* a list longer than the array: an error *)
+  /\ set_attr 10 [GStruct [GArray [GInt 1; GInt 2]]] (cell_proxy (TArray 2 (TInt KInt))) f0 (RList [RInt 4; RInt 5; RInt 6]) = Err
+  (* nil inside a slice of pointers: the zero value; the value read from Go can be written back *)
+  /\ from_go true (TSlice (TPtr (TInt KInt))) (GSlice [GBox (GInt 1); GNil]) = Ok (RList [RInt 1; RNil])
+  /\ set_attr 10 [GStruct [GNil]] (cell_proxy (TSlice (TPtr (TInt KInt)))) f0 (RList [RInt 1; RNil])
+      = Ok [GStruct [GSlice [GBox (GInt 1); GNil]]]
+  (* a struct-valued field written from a map *)
+  /\ set_attr 10 [GStruct [GStruct [GInt 1]]] (cell_proxy (TStruct 7 [(f0, TInt KInt)])) f0 (RMap [(f0, RInt 4)])
+      = Ok [GStruct [GStruct [GInt 4]]]
+  (* a nil map value is kept, as the zero value *)
+  /\ set_attr 10 [GStruct [GNil]] (cell_proxy (TMap TIface)) f0 (RMap [([97]%N, RNil)]) = Ok [GStruct [GMap [([97]%N, GNil)]]].
+Proof. conj_vm. Qed.
 
 (* A field written through a proxy of a struct VALUE taken from a slice is lost: it reads back as before. *)
 Theorem C08_refuted_copy_proxy :
@@ -138,12 +150,12 @@ Proof. eexists. conj_vm. Qed.
 (* ------------------------------------------------------------------ non-vacuity *)
 
 Definition t_deep : gotype := TMap (TSlice (TPtr (TArray 2 (TInt KInt8)))).        (* map[string][]*[2]int8 *)
-Definition v_deep : goval := GMap [([97]%N, GSlice [GBox (GArray [GInt (-128); GInt 127])]); ([98]%N, GNil)].
+Definition v_deep : goval := GMap [([97]%N, GSlice [GBox (GArray [GInt (-128); GInt 127]); GNil]); ([98]%N, GNil)].
 Example C08_guard_satisfiable : plain_type t_deep = true /\ wt t_deep v_deep = true /\ solid t_deep v_deep = true.
 Proof. conj_vm. Qed.
 Example C08_roundtrip_example :
   exists o, from_go false t_deep v_deep = Ok o /\
-            to_go [] 10 false t_deep o = Ok (Some (t_deep, GMap [([97]%N, GSlice [GBox (GArray [GInt (-128); GInt 127])]); ([98]%N, GSlice [])])).
+            to_go [] 10 false t_deep o = Ok (Some (t_deep, GMap [([97]%N, GSlice [GBox (GArray [GInt (-128); GInt 127]); GNil]); ([98]%N, GSlice [])])).
 Proof. eexists. conj_vm. Qed.
 Example C08_setfield_example :
   exists h', set_attr 10 [GStruct [GInt 5; GStr []]] (RProxy (TPtr (TStruct 8 [(f0, TInt KInt8); ([70;49]%N, TString)])) 0 []) f0 (RInt (-3)) = Ok h'
